@@ -160,6 +160,12 @@ def execute(G, cfg, steps, oracles, on_request=None, on_failed_send=None):
                 link.send(b"\x30\x05\x02\x01\x03\x04" + bytes([p & 0xFF]))
                 expect = ("exc", G.SnmpDecodeError)
                 prev_unanswered = True
+            elif reply == "foreign_report":
+                # a Report from *another* engine (matching msgID / user): a session that knows its engine id ignores it
+                b, t = TIMES[p % len(TIMES)]
+                link.send(ag.build_report(cfg, m, bytes.fromhex("80000009030011223344"), b ^ 1, t ^ 1))
+                prev_unanswered = True
+                expect = ("exc", BlockingIOError)
             elif reply == "report":
                 b, t = TIMES[p % len(TIMES)]
                 link.send(ag.build_report(cfg, m, model.engine_id, b, t))
